@@ -28,6 +28,8 @@ FLAVOURS = {1: "free choice of a realistic breaking change", 2: "changes that ne
 FLAVOURS[16] = "needle triggers, second time"
 FLAVOURS[18] = "real-world constructs of the file formats and of cloning practice, second time (ten properties)"
 FLAVOURS[19] = "constructs of laboratory practice (genes, vectors, primers, real codon usage), the ten other properties"
+FLAVOURS[20] = "needle triggers, third time (eight properties)"
+FLAVOURS[21] = "needle triggers, third time (eight other properties)"
 FLAVOURS[17] = "schedule-dependent defects (C08, C09, C13, C20) and composed operations (eight others), second time"
 for _k in (3, 4, 5, 6):
     FLAVOURS[_k] = "as round 2, with changing emphasis: state kept between calls (caches, pools), block and buffer sizes, less-travelled entry points, the clauses a harness is least likely to exercise"
@@ -35,7 +37,7 @@ per = {}
 for d in glob.glob(os.path.join(here, "seeded", "*")):
     m = json.load(open(os.path.join(d, "meta.json")))
     k = int(re.search(r"-m(\d+)$", os.path.basename(d)).group(1))
-    rnd = 16 if k in (33, 34) else {18: 17, 19: 18, 20: 19}.get((k + 1) // 2, (k + 1) // 2)
+    rnd = 16 if k in (33, 34) else {18: 17, 19: 18, 20: 19, 21: 20, 22: 21}.get((k + 1) // 2, (k + 1) // 2)
     t = per.setdefault(rnd, [0, 0])
     t[0] += 1
     if m.get("strengthened") or not m.get("detected"):
